@@ -1,1 +1,2 @@
 pub mod lines;
+pub mod exprs;
